@@ -201,12 +201,12 @@ func runC04(c *fw.Ctx) {
 	c.Cases("pinned", len(pins), true, func(i int, r *rng.R) {
 		c04Both(c, pins[i])
 	})
-	c.Cases("soup", c.N(200000, 5000000), false, func(i int, r *rng.R) {
+	c.Cases("soup", c.N(200000, 20000000), false, func(i int, r *rng.R) {
 		c04Both(c, genSoup(r))
 	})
 
 	// (b) every proper prefix of a serialised document is rejected
-	c.Cases("prefix", c.N(300, 5000), false, func(i int, r *rng.R) {
+	c.Cases("prefix", c.N(300, 40000), false, func(i int, r *rng.R) {
 		var tree *spec.Spec
 		pt := pinnedTrees()
 		if i < len(pt) {
@@ -256,7 +256,7 @@ func runC04(c *fw.Ctx) {
 	})
 
 	// (c) ill-formed UTF-8 anywhere between the root brackets is rejected
-	c.Cases("illformed", c.N(100, 1000), false, func(i int, r *rng.R) {
+	c.Cases("illformed", c.N(100, 8000), false, func(i int, r *rng.R) {
 		var tree *spec.Spec
 		pt := pinnedTrees()
 		if i < len(pt) {
@@ -306,7 +306,7 @@ func runC04(c *fw.Ctx) {
 	// (d) ParseFile == ParseObject on the file's bytes; unreadable paths give an error
 	dir := filepath.Join(c.WorkDir, fmt.Sprintf("files.%d.%t", c.Shard, c.Arch386))
 	os.MkdirAll(dir, 0o755)
-	c.Cases("parsefile", c.N(200, 5000), false, func(i int, r *rng.R) {
+	c.Cases("parsefile", c.N(200, 30000), false, func(i int, r *rng.R) {
 		var text string
 		if r.Chance(2, 3) {
 			tree := genDocTree(r, spec.Obj, r.Range(1, 4), r.Range(1, 5))
